@@ -66,4 +66,28 @@ def getSpec {β} (es : List (Str × β)) (q : Str) : Option β :=
     | none => none
     | some t => (highest (onTrack es t)).map (·.2)
 
+/-- the value stored under exactly this name -/
+def lookup {β} (es : List (Str × β)) (n : Str) : Option β := (es.find? (fun e => e.1 == n)).map (·.2)
+
+/-- C15, second sentence, declaratively: `r` is an admissible answer of a semver-aware lookup of
+`q` in the entries `es`: the exact match if there is one; otherwise nothing unless `q` is on a
+track, and then an entry of that same track such that no entry of the track has a strictly
+higher version (and nothing only if the track has no entry). -/
+def IsGet {β} (es : List (Str × β)) (q : Str) (r : Option β) : Prop :=
+  match lookup es q with
+  | some x => r = some x
+  | none =>
+    match trackOf q with
+    | none => r = none
+    | some t =>
+      (r = none ∧ ∀ e ∈ es, trackOf e.1 ≠ some t) ∨
+      (∃ n x v, r = some x ∧ (n, x) ∈ es ∧ trackOf n = some t ∧ versionOf n = some v ∧
+        ∀ e ∈ es, trackOf e.1 = some t → ∀ v', versionOf e.1 = some v' → ¬ (v.lt v' = true))
+
+/-- no two distinct entries of one track have the same position in the version order
+(`Version.key` = major, minor, patch, build-metadata key) -/
+def TieFree {β} (es : List (Str × β)) : Prop :=
+  ∀ e ∈ es, ∀ e' ∈ es, ∀ t, trackOf e.1 = some t → trackOf e'.1 = some t →
+    ∀ v v', versionOf e.1 = some v → versionOf e'.1 = some v' → v.key = v'.key → e.1 = e'.1
+
 end Wac.Spec
